@@ -567,7 +567,7 @@ def op_run(case, pm):
     a = _run_simple(text, 'prog.py')
     if a['outcome'].startswith('compile-error'):
         return {'status': 'skip', 'reason': 'uncompilable here'}
-    if any(m in a['stdout'] for m in _REFLECTIVE):
+    if any(m in a['stdout'] for m in _REFLECTIVE + (("<class '__main__.",) if PY2 else ())):      # python 2 has no qualified names: a local class prints like a global one
         return {'status': 'skip', 'reason': 'reflective output'}
     a2 = _run_simple(text, 'prog.py')
     if _run_diff(a, a2):
